@@ -76,9 +76,8 @@ def step (st : St) (j : Json) : R (St × Json) := do
     let assign ← jBool (fieldD j "assign" (Json.bool false))
     match st with
     | .sot t =>
-      match copySOT (ofTables t) with
-      | .ok t' => let t' := t'.map toTable; pure (if assign then .sot t' else st, obj [("values", ofSOTt t')])
-      | .error e => pure (st, ofErr e)
+      let t' := (copySOT (ofTables t)).map toTable
+      pure (if assign then .sot t' else st, obj [("values", ofSOTt t')])
     | .fot t => pure (st, ofFOT t)
     | .none => pure (st, err "no-object")
   | "restrict" =>
